@@ -36,13 +36,14 @@ void QXmppRpcManager::invokeInterfaceMethod(const QXmppRpcInvokeIq &iq)
     QXmppStanza::Error error;
 
     const QStringList methodBits = iq.method().split(u'.');
-    if (methodBits.size() != 2) {
-        return;
-    }
     const QString interface = methodBits.first();
     const QString method = methodBits.last();
-    QXmppInvokable *iface = m_interfaces.value(interface);
-    if (iface) {
+    QXmppInvokable *iface = methodBits.size() == 2 ? m_interfaces.value(interface) : nullptr;
+    if (methodBits.size() != 2) {
+        // malformed method name: answer, like every other failure below
+        error.setType(QXmppStanza::Error::Modify);
+        error.setCondition(QXmppStanza::Error::BadRequest);
+    } else if (iface) {
         if (iface->isAuthorized(iq.from())) {
 
             if (iface->interfaces().contains(method)) {
